@@ -77,6 +77,17 @@ class Report:
                 if key not in [h["key"] for h in self.known_hits]:
                     self.known_hits.append({"key": key, "what": k.get("what", what)})
                 return False
+        for v in self.violations:
+            if v["key"] == key:
+                if failing_input_found and not v["failing_input_found"]:
+                    v["failing_input_found"] = True
+                    v["what"] = what
+                    break
+                return False
+        else:
+            v = None
+        if v is not None:
+            self.violations.remove(v)
         d = REPLAYS / self.prop
         d.mkdir(parents=True, exist_ok=True)
         path = d / (_safe(key) + ".json")
